@@ -9,19 +9,6 @@ for d in seeded/$GLOB; do
   id=$(basename $d); p=${id%%-*}
   [ -f $d/patch.diff ] || continue
   cp -r $d /tmp/reseed/$id
-  if ! git -C /repo apply --check $d/patch.diff 2>/dev/null; then
-    python3 - $d <<'PY'
-import json,sys
-p=sys.argv[1]+'/meta.json'
-try: m=json.load(open(p))
-except Exception: m={}
-if m.get('applies') is not False:
-    m={'property':m.get('property'),'id':m.get('id'),'applies':False,'note':'the patch no longer applies to /repo HEAD: the code it changed was repaired since (see known_findings.txt)','previous':{k:m.get(k) for k in ('caught_by','check_quick_tail','check_thorough_tail')}}
-    json.dump(m,open(p,'w'),indent=1)
-PY
-    echo "RESULT $id: patch does not apply (kept, marked)"
-    continue
-  fi
   pk=$(grep -m1 '^package ' $d/demo_test.go | awk '{print $2}')
   case "$pk" in fclient*) sub=fclient;; spec*) sub=spec;; tokens*) sub=tokens;; *) sub=.;; esac
   echo "$p /tmp/reseed/$id $id $sub"
